@@ -31,6 +31,11 @@ if [ "$what" = all ] || [ "$what" = seeds2 ]; then
   # round 2: two further seeds per property (seeded2/<ID><a|b>/), written after the machinery was built
   for d in seeded2/C*/; do [ -f "$d/patch.diff" ] || continue
     props=$(python3 -c "import json;m=json.load(open('$d/meta.json'));print(' '.join(m.get('check_properties',[m['property']])))")
+    if python3 -c "import json,sys;sys.exit(0 if json.load(open('$d/meta.json')).get('accepted_miss') else 1)"; then
+      # documented miss (DESIGN.md 12.2): still run, report, but do not fail the corpus
+      before=$miss; out=$(run "$d/patch.diff" $props); echo "$out" | sed 's/^MISSED /MISSED-ACCEPTED /'; miss=$before
+      continue
+    fi
     run "$d/patch.diff" $props
   done
 fi
